@@ -82,6 +82,9 @@ pub fn install_panic_hook() {
             }
             message.truncate(cut);
         }
+        if let Ok(mut g) = LAST_PANIC_ANY.try_lock() {
+            *g = Some(Panic { message: message.clone(), site: site.clone() });
+        }
         LAST_PANIC.with(|p| *p.borrow_mut() = Some(Panic { message, site }));
     }));
 }
@@ -98,6 +101,16 @@ fn short_path(p: &str) -> String {
         }
     } else {
         p.to_string()
+    }
+}
+
+/// Last panic recorded by the hook in any thread (harness-error reporting).
+pub static LAST_PANIC_ANY: std::sync::Mutex<Option<Panic>> = std::sync::Mutex::new(None);
+
+pub fn last_panic_text() -> String {
+    match LAST_PANIC_ANY.lock().ok().and_then(|g| g.clone()) {
+        Some(p) => format!("{} at {}", p.message, p.site),
+        None => "<no record>".into(),
     }
 }
 
